@@ -125,7 +125,7 @@ def _check(job):
     fmt, a, b, opt = job
     dup = _matcher_dups(fmt, a, b)
     try:
-        fails = with_timeout(_check_inner, job, 4 if dup else JOB_TIMEOUT)
+        fails = with_timeout(_check_inner, job, 4 if dup else JOB_TIMEOUT, count=not dup)
         if dup:
             for f in fails:
                 f['class'] = 'c01-multiset-duplicates'
